@@ -138,16 +138,19 @@ CLAIMED = {
          "was found and fixed.",
     technique="CBMC bounded symbolic execution of date_time.c parsers over fixed textual shapes with symbolic digits (SAT kissat; cvc5 bv-as-int for epoch views)"),
  "C20": dict(
-    text="Joinable threads (programs J, JJ; JJJ in the thorough tier): the real aws_thread_launch / thread_fn / aws_thread_join / "
-         "aws_thread_current_at_exit code runs over a sequentialising pthread model in which the solver decides whether each created thread runs "
-         "immediately at pthread_create or only when somebody joins it: each function runs exactly once with the argument given at launch, on "
-         "its own thread; join returns only after the function and both at-exit callbacks have completed; at-exit callbacks run once each, on "
-         "that thread, in reverse order of registration; no thread is joined twice or joins itself; the wrapper and every at-exit record are "
-         "released exactly once.",
-    note="PARTIAL: every program containing a MANAGED thread (M, MM, MJ, Lm ...) exceeded 12 GB / 300 s (lazy-join list plus recursion through "
-         "pthread_join), so join_all_managed, the managed-thread count and 'threads that launch further managed threads' are NOT decided. Threads are "
-         "sequentialised (stack-like nesting only); pthread_*, mutex, condition variable and clock are harness stubs; typed static pools replace the "
-         "allocator for the two object kinds the thread code allocates.",
+    text="Threads (programs J, JJ, M, MJ, Lm and, named and with pthread_create allowed to fail, JJ and M; in the thorough tier also MM, JJJ, MMM, LmJ, MLm ...): "
+         "the real aws_thread_launch / thread_fn / aws_thread_join / aws_thread_current_at_exit / aws_thread_join_all_managed / lazy-join code runs over a "
+         "sequentialising pthread model in which the solver decides where each created thread runs (at pthread_create, while join-all waits, or at a "
+         "join): each function runs exactly once with the argument given at launch, on its own thread; join returns only after the function and its "
+         "at-exit callbacks have completed; at-exit callbacks run once each, on that thread, in reverse order of registration; join_all_managed "
+         "returns only after every managed thread - including one launched by another managed thread - has run and been joined exactly once, the "
+         "managed count is then zero, it never waits for something that can no longer happen; no thread is joined twice or joins itself; a failed "
+         "pthread_create is reported, leaves the count unchanged and never runs the function; wrapper, name copy and every at-exit record are "
+         "released exactly once in every case.",
+    note="Threads are SEQUENTIALISED: a thread runs to completion inside a gap of another flow (stack-like nesting, depth 1 for managed programs); "
+         "interleavings that need two flows suspended mid-way are not covered (seed C20-B, a count update moved after pthread_create, needs exactly that "
+         "and is missed). The wait stub is fair (at most one idle wait). pthread_*, mutex, condition variable and clock are harness stubs; each "
+         "wrapper / at-exit record / name is its own statically typed object. Timed join-all, cpu pinning and attr failures are not covered.",
     technique="CBMC bounded symbolic execution of posix/thread.c + thread_shared.c over a sequentialising pthread model with solver-chosen schedule"),
  "C18": dict(
     text="Linked hash table and FIFO / LIFO / LRU caches: EVERY program of 3 operations (4 in the thorough tier) in which the solver chooses each operation "
